@@ -36,13 +36,30 @@ ASSUMPTIONS = ["keys handed to the constructor are distinct (the library's docum
 def _history(rng, keys, absent, n_ops, lo=-9):
     ops = []
     for _ in range(n_ops):
-        t = rng.choice(["getvec", "getvec", "get1", "setscalar", "seteach", "fill", "contains", "items", "hs_contains", "zeros_like", "ones_like", "add_self", "eq_self", "eq_other", "add_perm"])
+        t = rng.choice(["getvec", "getvec", "get1", "setscalar", "seteach", "fill", "contains", "items", "hs_contains", "zeros_like", "ones_like", "add_self", "eq_self", "eq_other", "add_perm", "eq_big", "like_set"])
         if t == "getvec":
             ops.append({"t": t, "ks": htgen.queries(rng, keys, absent)})
         elif t == "get1":
             ops.append({"t": t, "k": rng.choice(keys)})
         elif t == "setscalar":
-            ops.append({"t": t, "ks": htgen.queries(rng, keys, absent), "x": rng.randint(lo, 99)})
+            ks = htgen.queries(rng, keys, absent)
+            if len(keys) >= 2 and rng.random() < 0.3:
+                # exactly as many positions as the table has keys, but with repeats: some key is left out
+                sub = rng.sample(keys, rng.randint(1, len(keys) - 1))
+                ks = [rng.choice(sub) for _ in keys]
+            ops.append({"t": t, "ks": ks, "x": rng.randint(lo, 99)})
+            if rng.random() < 0.5:
+                ops.append({"t": "items"})
+        elif t == "like_set":
+            # a write into the result of zeros_like / ones_like (a fresh table with one shared value), then its contents; the
+            # source table must not change
+            sub = rng.sample(keys, rng.randint(1, max(1, len(keys) - 1)))
+            ks = [rng.choice(sub) for _ in range(rng.choice([1, 2, len(keys), len(keys)]))]
+            ops.append({"t": t, "like": rng.choice(["zeros", "ones"]), "ks": ks, "x": rng.randint(max(lo, 2), 99)})
+        elif t == "eq_big":
+            # == of two tables over the same keys whose (large, or nearly equal float) values differ for ONE key / for none
+            ops.append({"t": t, "i": rng.randrange(len(keys)), "delta": rng.choice([0, 1, 1, -1]),
+                        "base": rng.choice([10 ** 6, 10 ** 9, 2 ** 53, 10 ** 15, "float"])})
         elif t == "seteach":
             ks = htgen.queries(rng, keys, absent)
             ops.append({"t": t, "ks": ks, "xs": [rng.randint(lo, 99) for _ in ks]})
@@ -161,6 +178,18 @@ def run_impl(p):
                     return htgen.sort_pairs((kk, _num(v)) for kk, v in r.to_dict().items())
                 if k == "eq_self":
                     return bool(t == t)
+                if k == "like_set":
+                    r = (np.zeros_like if o["like"] == "zeros" else np.ones_like)(t)
+                    r[np.array(o["ks"], dtype=qd)] = o["x"]
+                    return htgen.sort_pairs((kk, _num(v)) for kk, v in r.to_dict().items())
+                if k == "eq_big":
+                    if o["base"] == "float":
+                        v1 = np.array([1.0 + 0.5 * i for i in range(len(keys))])
+                        v2 = v1.copy(); v2[o["i"]] = v2[o["i"]] * (1 + o["delta"] * 1e-9)
+                    else:
+                        v1 = np.array([o["base"] + 3 * i for i in range(len(keys))], dtype=np.int64)
+                        v2 = v1.copy(); v2[o["i"]] += o["delta"]
+                    return bool(HashTable(keys, v1, **kw) == HashTable(keys, v2, **kw))
                 if k == "eq_other":
                     cur = [_num(x) for x in t[keys]]
                     cur[o["i"]] = cur[o["i"]] + o["delta"]
@@ -228,6 +257,13 @@ def oracle(p):
             trace.append(htgen.sort_pairs((q, v + d2[q]) for q, v in d.items()))
         elif k == "eq_self":
             trace.append(True)
+        elif k == "like_set":
+            d2 = {q: (0 if o["like"] == "zeros" else 1) for q in d}
+            for q in o["ks"]:
+                d2[q] = o["x"]
+            trace.append(htgen.sort_pairs(d2.items()))
+        elif k == "eq_big":
+            trace.append(o["delta"] == 0)
         elif k == "eq_other":
             trace.append(o["delta"] == 0)
     return {"k": "trace", "v": trace}
